@@ -148,8 +148,13 @@ func c03entry(r *core.Run, ti *terminfo.Terminfo, ei int) {
 	fail := func(sig, what string, rep any) {
 		r.Violate(sig, ti.Name+": "+what, map[string]any{"entry": ti.Name, "case": rep})
 	}
+	d, derr := newDecoder(ti, "UTF-8", 80, 24)
+	if derr != nil {
+		r.Inconclusive(ti.Name + ": " + derr.Error())
+		return
+	}
 	dec := func(s string) ([]NEv, bool) {
-		evs, left, pan := decodeWhole(ti, "UTF-8", 80, 24, []byte(s))
+		evs, left, pan := d.whole([]byte(s))
 		if pan != nil {
 			fail("panic", fmt.Sprintf("decoding %q panicked: %v", s, pan), s)
 			return nil, false
@@ -341,11 +346,11 @@ func c03entry(r *core.Run, ti *terminfo.Terminfo, ei int) {
 	if len(all) > 0 {
 		if r.Quick() {
 			rg := r.Rand("pairs", ti.Name)
-			for i := 0; i < 3000; i++ {
+			for i := 0; i < 20000; i++ {
 				a, b := all[rg.IntN(len(all))], all[rg.IntN(len(all))]
 				checkConcat([]string{a, b})
 			}
-			r.CaseN(3000, 3000)
+			r.CaseN(20000, 20000)
 		} else {
 			for _, a := range all {
 				for _, b := range all {
@@ -356,7 +361,7 @@ func c03entry(r *core.Run, ti *terminfo.Terminfo, ei int) {
 			r.CaseN(n, n)
 		}
 		rg := r.Rand("triples", ti.Name)
-		nt := r.Pick(1000, 30000)
+		nt := r.Pick(5000, 100000)
 		for i := 0; i < nt; i++ {
 			checkConcat([]string{all[rg.IntN(len(all))], all[rg.IntN(len(all))], all[rg.IntN(len(all))]})
 		}
